@@ -36,6 +36,8 @@ type GCNode struct {
 	Name  string `json:"name"`
 	PID   string `json:"pid"`
 	Ready string `json:"ready"` // "True" | "False" | "Unknown" | "" (no Ready condition)
+	// the Node has a deletion timestamp but still exists (held by the termination finalizer while it drains)
+	Terminating bool `json:"terminating,omitempty"`
 }
 type NamedFault struct {
 	Name  string `json:"name"`
@@ -90,6 +92,9 @@ func genGCBase(r *rand.Rand, dupReady float64) GCIn {
 	if r.Float64() < 0.05 {
 		in.Provider = append(in.Provider, GCInst{PID: ""})
 	}
+	// share of Nodes that are terminating (deletion timestamp set, still present): none in 40% of the clusters,
+	// otherwise 15% / 50% / all of the Nodes
+	pTerm := pick(r, []float64{0, 0, 0.15, 0.5, 1})
 	nn := 0
 	for k := 0; k < npid; k++ {
 		cnt := 0
@@ -107,7 +112,7 @@ func genGCBase(r *rand.Rand, dupReady float64) GCIn {
 			if r.Float64() < 0.5 || !mayBeReady {
 				rd = pick(r, triStates[1:])
 			}
-			in.Nodes = append(in.Nodes, GCNode{Name: fmt.Sprintf("node-%02d", nn), PID: pid(k), Ready: rd})
+			in.Nodes = append(in.Nodes, GCNode{Name: fmt.Sprintf("node-%02d", nn), PID: pid(k), Ready: rd, Terminating: r.Float64() < pTerm})
 			nn++
 		}
 	}
@@ -188,21 +193,29 @@ func genGCLookup(r *rand.Rand, t core.Tier) any {
 	return in
 }
 
-// single-claim matrix: registered x provider lists it x node situation x lookup fault x deleting
+// single-claim matrix: registered x provider lists it x node situation (incl. terminating Nodes) x lookup fault x deleting
 func enumGCLookup(_ core.Tier) []any {
 	var out []any
-	nodeCases := [][]string{{}, {"True"}, {"False"}, {"Unknown"}, {""}, {"True", "True"}, {"True", "False"}, {"False", "True"}, {"False", "Unknown"}}
+	type nd struct {
+		ready string
+		term  bool
+	}
+	nodeCases := [][]nd{{}, {{"True", false}}, {{"False", false}}, {{"Unknown", false}}, {{"", false}},
+		{{"True", false}, {"True", false}}, {{"True", false}, {"False", false}}, {{"False", false}, {"True", false}}, {{"False", false}, {"Unknown", false}},
+		// a Node with a deletion timestamp that still exists (draining under the termination finalizer)
+		{{"True", true}}, {{"False", true}}, {{"Unknown", true}}, {{"", true}},
+		{{"True", true}, {"False", false}}, {{"False", true}, {"Unknown", true}}}
 	for _, reg := range triStates {
 		for _, prov := range []string{"absent", "listed", "terminating"} {
 			for _, nc := range nodeCases {
 				for _, fault := range []bool{false, true} {
 					for _, deleting := range []bool{false, true} {
-						dupReady := len(nc) > 1 && (nc[0] == "True" || nc[1] == "True")
-						if fault && !(len(nc) == 0 || (len(nc) == 1 && (nc[0] == "True" || nc[0] == "False"))) {
-							continue // with the lookup failed the Nodes are never seen: three representatives suffice
+						dupReady := len(nc) > 1 && (nc[0].ready == "True" || nc[1].ready == "True")
+						if fault && !(len(nc) == 0 || (len(nc) == 1 && (nc[0].ready == "True" || nc[0].ready == "False"))) {
+							continue // with the lookup failed the Nodes are never seen: a few representatives suffice
 						}
 						if prov == "terminating" && (fault || dupReady) && reg == "True" && !deleting {
-							continue // keep the number of inputs that reproduce the known findings small (the engine keeps 20 failures per op)
+							continue // keep the number of inputs that reproduce the known findings small
 						}
 						in := GCIn{Claims: []GCClaim{{Name: "nc-00", PID: pid(0), Registered: reg, Deleting: deleting, Managed: true}},
 							Provider: []GCInst{{PID: pid(1)}}, Nodes: []GCNode{{Name: "node-99", PID: pid(1), Ready: "True"}}, NodeListFaultPIDs: []string{}, DeleteFaults: []NamedFault{}}
@@ -212,8 +225,8 @@ func enumGCLookup(_ core.Tier) []any {
 						case "terminating":
 							in.Provider = append(in.Provider, GCInst{PID: pid(0), Deleting: true})
 						}
-						for j, rd := range nc {
-							in.Nodes = append(in.Nodes, GCNode{Name: fmt.Sprintf("node-%02d", j), PID: pid(0), Ready: rd})
+						for j, n := range nc {
+							in.Nodes = append(in.Nodes, GCNode{Name: fmt.Sprintf("node-%02d", j), PID: pid(0), Ready: n.ready, Terminating: n.term})
 						}
 						if fault {
 							in.NodeListFaultPIDs = []string{pid(0)}
@@ -255,6 +268,10 @@ func implGC(raw json.RawMessage) (any, error) {
 		}
 		if n.Ready != "" {
 			node.Status.Conditions = append(node.Status.Conditions, corev1.NodeCondition{Type: corev1.NodeReady, Status: corev1.ConditionStatus(n.Ready)})
+		}
+		if n.Terminating {
+			// deleted in the setup below: the finalizer keeps the object, with a deletion timestamp
+			node.Finalizers = []string{v1.TerminationFinalizer}
 		}
 		objs = append(objs, node)
 	}
@@ -299,6 +316,17 @@ func implGC(raw json.RawMessage) (any, error) {
 		if cl.Deleting {
 			if err := c.Delete(ctx, &v1.NodeClaim{ObjectMeta: metav1.ObjectMeta{Name: cl.Name}}); err != nil {
 				return nil, fmt.Errorf("setup: %w", err)
+			}
+		}
+	}
+	for _, n := range in.Nodes {
+		if n.Terminating {
+			if err := c.Delete(ctx, &corev1.Node{ObjectMeta: metav1.ObjectMeta{Name: n.Name}}); err != nil {
+				return nil, fmt.Errorf("setup: %w", err)
+			}
+			got := &corev1.Node{}
+			if err := c.Get(ctx, client.ObjectKey{Name: n.Name}, got); err != nil || got.DeletionTimestamp.IsZero() {
+				return nil, fmt.Errorf("setup: node %s is not terminating (%v)", n.Name, err)
 			}
 		}
 	}
@@ -353,17 +381,20 @@ func gcViolationClasses(in *GCIn, deleted []string) []string {
 			set["node-lookup-failed"] = true
 			continue
 		}
-		ready, cnt := 0, 0
+		ready, cnt, term := 0, 0, false
 		for _, n := range in.Nodes {
 			if n.PID == cl.PID && cl.PID != "" {
 				cnt++
 				if n.Ready == "True" {
 					ready++
+					term = n.Terminating
 				}
 			}
 		}
 		if ready > 0 && cnt > 1 {
 			set["duplicate-nodes-ready"] = true
+		} else if ready > 0 && term {
+			set["node-ready-terminating"] = true // the only Node is Ready, has a deletion timestamp, still exists
 		} else if ready > 0 {
 			set["node-ready"] = true
 		}
@@ -439,9 +470,22 @@ func gcLabels(raw json.RawMessage, impl any) []string {
 		}
 	}
 	cnt := map[string]int{}
+	eligPID := map[string]bool{}
+	for _, c := range in.Claims {
+		if gcEligible(&in, c) && c.PID != "" {
+			eligPID[c.PID] = true
+		}
+	}
 	for _, n := range in.Nodes {
 		cnt[n.PID]++
-		l = append(l, "node-ready:"+n.Ready)
+		if n.Terminating {
+			l = append(l, "node-terminating-ready:"+n.Ready)
+			if eligPID[n.PID] {
+				l = append(l, "collectable-claim:node-terminating-ready:"+n.Ready)
+			}
+		} else {
+			l = append(l, "node-ready:"+n.Ready)
+		}
 	}
 	for _, v := range cnt {
 		if v > 1 {
